@@ -505,7 +505,14 @@ where
             return;
         }
         // matrix of weighted model function values
-        let Phi_w = self.model.eval().ok().map(|Phi| &self.weights * Phi);
+        // a matrix with non-finite elements cannot be decomposed (the SVD
+        // does not terminate on it), so we treat it like a failed evaluation
+        let Phi_w = self
+            .model
+            .eval()
+            .ok()
+            .map(|Phi| &self.weights * Phi)
+            .filter(|Phi_w| Phi_w.iter().all(|elem| elem.is_finite()));
 
         // calculate the svd
         let svd_epsilon = self.svd_epsilon;
@@ -646,7 +653,14 @@ where
             return;
         }
         // matrix of weighted model function values
-        let Phi_w = self.model.eval().ok().map(|Phi| &self.weights * Phi);
+        // a matrix with non-finite elements cannot be decomposed (the SVD
+        // does not terminate on it), so we treat it like a failed evaluation
+        let Phi_w = self
+            .model
+            .eval()
+            .ok()
+            .map(|Phi| &self.weights * Phi)
+            .filter(|Phi_w| Phi_w.iter().all(|elem| elem.is_finite()));
 
         // calculate the svd
         let svd_epsilon = self.svd_epsilon;
